@@ -198,9 +198,10 @@ pub fn observe_model(model: &Model, o: &ObsOpts) -> Obs {
                     m.insert(
                         format!("{}.cf[{}]", p, k),
                         format!(
-                            "range={} prio_rank={} rule={} dxf={}",
+                            "range={} prio_rank={} idx={} rule={} dxf={}",
                             cf.range,
                             k,
+                            cf.index,
                             strip_dxf_id(&format!("{:?}", cf.cf_rule)),
                             dxf
                         ),
@@ -312,6 +313,22 @@ pub fn observe_model(model: &Model, o: &ObsOpts) -> Obs {
                     m.insert(format!("{}.value", cp), v);
                     m.insert(format!("{}.text", cp), f);
                     m.insert(format!("{}.type", cp), t);
+                    // the conditional-formatting overlay, when it changes what the cell looks like
+                    if !ws.conditional_formatting.is_empty() {
+                        match model.get_extended_style_for_cell(s, r, c) {
+                            Ok(ext) => {
+                                let est = style_str(&ext.style);
+                                let deco = format!("{:?}{:?}{:?}", ext.icon.is_some(), ext.data_bar.is_some(), ext.rating.is_some());
+                                let base = m.get(&format!("{}.style", cp)).cloned().unwrap_or_default();
+                                if est != base || deco != "falsefalsefalse" {
+                                    m.insert(format!("{}.cfstyle", cp), format!("{} deco={}", est, deco));
+                                }
+                            }
+                            Err(e) => {
+                                m.insert(format!("{}.cfstyle", cp), format!("ERR {}", e));
+                            }
+                        }
+                    }
                 }
             }
         }
